@@ -139,7 +139,11 @@ func (s *PutStmt) Validate(ctx *CheckCtx) error {
 }
 
 func (s *PutStmt) validateKVPair(kv *PutKVPair, ctx *CheckCtx) error {
-	if err := kv.Key.Check(ctx); err != nil {
+	// The key keyword stands for the key of the pair, it is only known in
+	// the value expression
+	kctx := *ctx
+	kctx.NotAllowKey = true
+	if err := kv.Key.Check(&kctx); err != nil {
 		return err
 	}
 	switch kv.Key.ReturnType() {
